@@ -291,6 +291,11 @@ func runC06(r *vk.Run) {
 		rng := c.Rng
 		doc := genJObj(rng, 2, rng.Range(0, 6))
 		line := jText(doc)
+		if rng.Chance(1, 6) {
+			// JSON allows white space around the value
+			line = vk.Pick(rng, []string{" ", "\t", "\n", "  \r\n", ""}) + line + vk.Pick(rng, []string{"", " ", "\n", "\r\n"})
+			c.Count("json_documents_with_surrounding_space", 1)
+		}
 		names, ok := sanOK(doc.Keys)
 		if !ok {
 			c.Count("excluded_collision", 1)
